@@ -15,6 +15,7 @@ import (
 	"testing/synctest"
 
 	"verif/vrt"
+	"verif/vsync"
 )
 
 // Exec is the record of one complete execution.
@@ -164,6 +165,7 @@ func RunOne(t *testing.T, policy string, fsPoints, selectAlts bool, prefix []int
 			ctl := vrt.NewCtl()
 			ctl.FsPoints = fsPoints
 			ctl.SelectAlts = selectAlts
+			vsync.ResetPools()
 			ctl.Activate()
 			defer ctl.Deactivate()
 			s := &Stepper{Ctl: ctl, x: x, prefix: prefix, expect: expect, policy: policy, last: -1}
